@@ -201,6 +201,7 @@ func VerifC10_Locks(L int) {
 	var mc MACCommand
 	mc.UnmarshalBinary(up, data)
 	verifAssert(verifLocksReleased(), "MACCommand.UnmarshalBinary releases the registry lock on every path")
+	verifNoGlobalWritesExcept("lorawan.macPayloadRegistry") // C10: no hidden package-level state is written
 	verifReach("done")
 }
 
